@@ -350,54 +350,168 @@ class _Walk:
 
 # ------------------------------------------------------------------ R1
 
-def _device_switch_fns(prog):
+def _device_fns(prog):
+    """functions of the VM that look at the statement's printer type and hand out a printer"""
     out = []
     for f in prog.fns.values():
         if f.crate != "rusty_basic" or "::interpreter::" not in f.path or f.kind == "const" or common.is_derived(f):
             continue
-        for sw in mir.enum_switches(prog, f.body):
-            if sw.adt.endswith("::PrinterType"):
-                out.append((f, sw))
+        if "Printer" not in f.body.locals[0]["ty"]:
+            continue
+        reads = any(sw.adt.endswith("::PrinterType") for sw in mir.enum_switches(prog, f.body)) or \
+            any("PrinterType" in (mir.callee_path(t) or "") and mir.callee_path(t).endswith("::eq") for _b, t in f.body.calls())
+        if reads:
+            out.append(f)
     return out
+
+
+def _const_variant(f, body, op, adt_suffix):
+    """variant of the constant enum value an operand denotes (a promoted constant or a local aggregate)"""
+    for _ in range(4):
+        k = op.get("k") if isinstance(op, dict) else None
+        if k and "promoted" in k and k["promoted"] < len(f.promoted):
+            for blk in f.promoted[k["promoted"]].blocks:
+                for st in blk["s"]:
+                    if st["k"] == "assign" and st["r"]["k"] == "agg" and (st["r"].get("adt") or "").endswith(adt_suffix):
+                        return st["r"]["variant"]
+            return None
+        pl = mir.op_place(op)
+        if pl is None:
+            return None
+        d = body.single_def(pl[0])
+        if not d or d[1] == "T":
+            return None
+        r = d[2]["r"]
+        if r["k"] == "agg" and (r.get("adt") or "").endswith(adt_suffix):
+            return r["variant"]
+        if r["k"] == "use":
+            op = r["o"]
+        elif r["k"] == "ref":
+            d2 = body.single_def(r["p"][0]) if not r["p"][1] or r["p"][1] == ["*"] else None
+            if d2 and d2[1] != "T" and d2[2]["r"]["k"] in ("use", "agg"):
+                if d2[2]["r"]["k"] == "agg" and (d2[2]["r"].get("adt") or "").endswith(adt_suffix):
+                    return d2[2]["r"]["variant"]
+                op = d2[2]["r"].get("o", {})
+            else:
+                return None
+        else:
+            return None
+    return None
+
+
+def _blocks_for_variant(prog, f, variant, adt_suffix="::PrinterType"):
+    """blocks of f that run when the enum value it looks at is `variant`: a match on it follows its arm, an
+    `==` against a constant variant is decided, everything else forks"""
+    body = f.body
+    pv = mir.Prov(body)
+    a = None
+    for ad in prog.adts.values():
+        if ad["path"].endswith(adt_suffix):
+            a = ad
+    if a is None:
+        raise CheckError("enum %s not found" % adt_suffix)
+    discr = {v["name"]: v.get("discr", v["idx"]) for v in a["variants"]}
+    known = {}
+    seen = set()
+    work = [0]
+    while work:
+        b = work.pop()
+        if b in seen or body.is_cleanup(b):
+            continue
+        seen.add(b)
+        blk = body.blocks[b]
+        t = blk["t"]
+        if t["k"] == "switch":
+            pl = mir.op_place(t["o"])
+            taken = None
+            if pl is not None and not pl[1]:
+                if pl[0] in known:
+                    v = known[pl[0]]
+                    taken = t["else"]
+                    for val, tg in t["ts"]:
+                        if val == int(v):
+                            taken = tg
+                else:
+                    d = None
+                    for st in reversed(blk["s"]):
+                        if st["k"] == "assign" and st["p"] == [pl[0], []]:
+                            d = st["r"]
+                            break
+                    if d is None:
+                        sd = body.single_def(pl[0])
+                        d = sd[2]["r"] if sd and sd[1] != "T" else None
+                    if d is not None and d["k"] == "discr" and (d.get("adt") or "").endswith(adt_suffix):
+                        taken = t["else"]
+                        for val, tg in t["ts"]:
+                            if val == discr[variant]:
+                                taken = tg
+                    elif d is not None and d["k"] == "use":
+                        p2 = mir.op_place(d["o"])
+                        if p2 is not None and not p2[1] and p2[0] in known:
+                            v = known[p2[0]]
+                            taken = t["else"]
+                            for val, tg in t["ts"]:
+                                if val == int(v):
+                                    taken = tg
+            if taken is not None:
+                work.append(taken)
+            else:
+                work += [tg for _v, tg in t["ts"]] + [t["else"]]
+        elif t["k"] == "call":
+            cp = mir.callee_path(t) or ""
+            if cp.endswith("::eq") and "PrinterType" in cp and len(t["args"]) == 2 and t.get("d") and not t["d"][1]:
+                w = _const_variant(f, body, t["args"][1], adt_suffix) or _const_variant(f, body, t["args"][0], adt_suffix)
+                if w is not None:
+                    known[t["d"][0]] = (w == variant)
+            if cp.endswith("::ne") and "PrinterType" in cp and len(t["args"]) == 2 and t.get("d") and not t["d"][1]:
+                w = _const_variant(f, body, t["args"][1], adt_suffix) or _const_variant(f, body, t["args"][0], adt_suffix)
+                if w is not None:
+                    known[t["d"][0]] = (w != variant)
+            if t.get("t") is not None:
+                work.append(t["t"])
+        else:
+            work += [x for x in body.succ(b)]
+    return seen
 
 
 def r1_device_dispatch(ctx, rule="C16.R1"):
     prog = ctx.prog
-    sites = _device_switch_fns(prog)
+    sites = _device_fns(prog)
     if not sites:
-        raise CheckError("%s: no function of the VM branches on PrinterType" % rule)
+        raise CheckError("%s: no function of the VM looks at the printer type and hands out a printer" % rule)
     want = {"Print": "stdout", "LPrint": "lpt1"}
     devices = {}
-    for f, sw in sites:
+    for f in sites:
         body = f.body
         pv = mir.Prov(body)
         short = f.path.split("::")[-1]
+        per = {}
         for v in ("Print", "LPrint", "File"):
-            key = "%s:%s:%s" % (rule, short, v)
-            if v not in sw.arms:
-                ctx.violation(rule, key, f.loc, "%s has no arm of its own for PrinterType::%s: the device is chosen by a "
-                              "wildcard" % (short, v))
-                continue
-            others = {t for n, t in sw.arms.items() if n != v}
-            region = mir.arm_region(body, sw.bb, sw.arms[v])
+            blocks = _blocks_for_variant(prog, f, v)
             fields = set()
-            for b in region:
+            for b in blocks:
                 for s in body.blocks[b]["s"]:
                     if s["k"] == "assign" and s["r"]["k"] == "ref":
                         n = _self_field(s["r"]["p"])
                         if n:
                             fields.add(n)
+            per[v] = (blocks, fields)
+        common_fields = per["Print"][1] & per["LPrint"][1] & per["File"][1]
+        for v in ("Print", "LPrint", "File"):
+            key = "%s:%s:%s" % (rule, short, v)
+            blocks, fields = per[v]
+            fields = fields - common_fields
             if v in want:
                 devices[v] = fields
                 ctx.decide(fields == {want[v]}, rule, key, f.loc, "hands out self.%s" % want[v],
-                           "the %s arm of %s hands out %s instead of the `%s` object: %s text goes to another device"
-                           % (v, short, sorted(fields) or "nothing of self", want[v], "PRINT" if v == "Print" else "LPRINT"))
+                           "with the printer type %s, %s reaches %s instead of the `%s` object only: %s text goes to another device"
+                           % (v, short, sorted(fields) or "no device of self", want[v], "PRINT" if v == "Print" else "LPRINT"))
             else:
-                # the file arm: a lookup whose handle argument is the handle the statement stored
                 ok = False
                 why = "no lookup by the statement's handle"
-                for _b, t in mir.region_calls(body, region):
-                    if len(t["args"]) >= 2 and "FileManager" in mir.callee_path(t):
+                for b in sorted(blocks):
+                    t = body.blocks[b]["t"]
+                    if t["k"] == "call" and len(t["args"]) >= 2 and "FileManager" in mir.callee_path(t):
                         o = mir.show_origin(pv.of_operand(t["args"][1]))
                         if "get_file_handle(" in o and "print_state" in o:
                             nm = mir.callee_path(t).split("::")[-1]
@@ -410,8 +524,8 @@ def r1_device_dispatch(ctx, rule="C16.R1"):
                                 mir.callee_path(t).split("::")[-1], o[:80])
                 ctx.decide(ok and fields <= {"file_manager"}, rule, key, f.loc,
                            "output side of the file with the statement's handle",
-                           "the File arm of %s: %s" % (short, why))
-    ctx.analysed_units(rule, functions=[f.path.split("::", 1)[1] for f, _ in sites])
+                           "with the printer type File, %s: %s" % (short, why))
+    ctx.analysed_units(rule, functions=[f.path.split("::", 1)[1] for f in sites])
     ctx.require(rule, 3)
     return devices
 
@@ -854,18 +968,33 @@ def r5_column(ctx, rule="C16.R5"):
         # print: line end between parts, parts through an advancer
         adv = _advancers(prog, imp["self_adt"], col)
         adv_ids = {f.id for f, _s in adv}
-        calls_ln = any((t.get("res") or mir.callee_of(t)) == ln.id or _is_printer_call(t, "println") for _b, t in pbody.calls())
-        calls_adv = any((t.get("res") or mir.callee_of(t)) in adv_ids for _b, t in pbody.calls()) or pr.id in adv_ids
+        # the loop body may be a closure handed to an adaptor of the split (try_fold, for_each ...)
+        pfns = [pr] + prog.closures_of(pr)
+        pcalls = [(g_, t) for g_ in pfns for _b, t in g_.body.calls()]
+        calls_ln = any((t.get("res") or mir.callee_of(t)) == ln.id or _is_printer_call(t, "println") for _g, t in pcalls)
+        calls_adv = any((t.get("res") or mir.callee_of(t)) in adv_ids for _g, t in pcalls) or pr.id in adv_ids
         ctx.decide(calls_ln, rule, "%s:%s:print-ends-line-between-parts" % (rule, ty), pr.loc, "println between parts",
                    "%s::print never calls println: a CR / LF inside a string does not restart the column" % ty)
         if split:
             ppv = mir.Prov(pbody)
-            raw = []
+            # closures that are handed to a call on (an adaptor of) the split: their parameters are parts
+            fed = set()
             for _b, t in pbody.calls():
-                if (t.get("res") or mir.callee_of(t)) in adv_ids and len(t["args"]) >= 2:
-                    o = mir.show_origin(ppv.of_operand(t["args"][1]))
-                    if "split" not in o:
-                        raw.append("line %s (%s)" % (t.get("ln"), o[:40]))
+                if t["args"] and "split" in mir.show_origin(ppv.of_operand(t["args"][0])):
+                    for a_ in t["args"][1:]:
+                        o_ = mir.strip_refs(ppv.of_operand(a_))
+                        if o_[0] == "agg" and o_[1] == "closure":
+                            fed.add(o_[2])
+            raw = []
+            for g_ in pfns:
+                gpv = ppv if g_.id == pr.id else mir.Prov(g_.body)
+                for _b, t in g_.body.calls():
+                    if (t.get("res") or mir.callee_of(t)) in adv_ids and len(t["args"]) >= 2:
+                        o = mir.show_origin(gpv.of_operand(t["args"][1]))
+                        if g_.id != pr.id and g_.id in fed and "arg" in o:
+                            continue
+                        if "split" not in o:
+                            raw.append("line %s (%s)" % (t.get("ln"), o[:40]))
             ctx.decide(not raw, rule, "%s:%s:print-writes-split-parts-only" % (rule, ty), pr.loc,
                        "every text handed to the advancing routine is a part of the split",
                        "%s::print hands text to the advancing routine that did not come out of the split at CR / LF - %s: a CR or "
